@@ -373,6 +373,7 @@ class PathCtx:
         self.side_obligations: list = []
         self.notes: list[str] = []
         self.ghost: dict = {}
+        self.truncated = False
 
     # -- fresh symbols (deterministic names => re-execution is reproducible)
     def fresh_name(self, prefix):
@@ -475,7 +476,13 @@ def explore(fn, *, max_paths=3000, feas_timeout_ms=10000, stats=None):
             try:
                 res = fn(pctx)
             except InfeasiblePath:
-                continue
+                # an assumption made the path condition unsatisfiable: the
+                # rest of this path is unreachable.  What was recorded while
+                # it was still feasible stands -- its obligations (with their
+                # own pc snapshots) and the alternatives it branched off.
+                res = None
+                pctx.truncated = True
+                stats.truncated = getattr(stats, "truncated", 0) + 1
         finally:
             _CTX = prev
         if len(pctx.taken) < len(dec):
